@@ -28,12 +28,26 @@ def worker(case: Dict[str, Any]) -> CaseResult:
     cfg_full = dict(case["cfg"])
     with core.Scratch() as root:
         cfg = write_case(root, c17.SCHEMA, c17.QUERIES, cfg_full)
+        # the target already holds copies of the bundled files left by another release (newer than the installed generator's own files, with other content):
+        # the package generated now must classify responses the way THIS release does
+        import os as _os
+        import time as _time
+        stale_dir = root / "graphql_client"
+        stale_dir.mkdir()
+        for fn in ("base_client.py", "async_base_client.py", "base_client_open_telemetry.py", "async_base_client_open_telemetry.py", "exceptions.py", "base_model.py", "__init__.py"):
+            (stale_dir / fn).write_text("raise RuntimeError('copy left by an older release: %s')\n" % fn)
+            _os.utime(stale_dir / fn, (_time.time() + 3600, _time.time() + 3600))
         with warnings.catch_warnings():
             warnings.simplefilter("ignore")
             g = run_cli(root, "client", cfg)
         if not g.ok:
             return CaseResult("inconclusive", note="generation failed: %s %s" % (g.exc_type, g.exception))
-        pkg = import_package(root, "graphql_client")
+        try:
+            pkg = import_package(root, "graphql_client")
+        except BaseException as e:  # noqa: BLE001
+            return CaseResult("violated", [Violation(PROP, "generated-method-outcome", "config=%r: the package generated over copies of the bundled files left by another release does not "
+                                                     "load: %s: %s" % (case["cfg"], type(e).__name__, str(e)[:300]), ["generated_method"], {"kind": "generated", "cfg": case["cfg"], "statuses": case["statuses"]},
+                                                     mech="generated-method:stale-bundled-copy").to_json()], stats, {"features": ["generated_method"]})
         server = RefServer(build_schema(c17.SCHEMA))
         client, is_async = make_client(pkg, cfg, server)
         mname = find_methods(pkg, cfg, ["GetUser"])["GetUser"]
